@@ -119,7 +119,7 @@ func (req *Request) parse(con *Connection) {
 		req.headers.http_headers_add(key, value)
 	}
 	//剩下到就是 body
-	req.body = p
+	req.body = strings.TrimPrefix(p, "\r\n")
 }
 
 //GetMethod d
